@@ -12,6 +12,8 @@ import LolHtml.Lane.Sel
 import LolHtml.Lane.Edit
 import LolHtml.Lane.Attrs
 import LolHtml.Lane.Full
+import LolHtml.Lane.Tb
+import LolHtml.Lane.TbSim
 
 namespace LolHtml.Lane
 
@@ -31,7 +33,10 @@ def registry : List (String × (String → String)) :=
     ("sel", Sel.run),
     ("edit", Edit.run),
     ("attrs", Attrs.run),
-    ("full", Full.run) ]
+    ("full", Full.run),
+    ("tb", Tb.run),
+    ("tbm", Tb.runModes),
+    ("tbs", TbSim.run) ]
 
 def find (name : String) : Option (String → String) :=
   (registry.find? (·.1 == name)).map (·.2)
